@@ -205,11 +205,11 @@ msg_save_start_end(const void *msg, const size_t bit_offset, const size_t bit_le
 
         if (blast < 8) {
                 *save_end = msg_ptr[0] & mtab_shr[bend];
-        } else {
-                const size_t i = ((bend == 0) ? (blast - 8) : blast) / 8;
-
-                *save_end = msg_ptr[i] & mtab_shr[bend];
+        } else if (bend != 0) {
+                /* message ends inside byte (blast / 8): keep the bits behind it */
+                *save_end = msg_ptr[blast / 8] & mtab_shr[bend];
         }
+        /* bend == 0: message ends on a byte boundary, nothing behind it to keep */
 }
 
 /**
